@@ -190,7 +190,9 @@ def Str.after_newlines (s : Str) : List Nat := Str.afterNewlinesFrom 0 s.chars
 /-- `iter.chain(end)` with `end : Option<usize>` -/
 def Str.chain_opt (it : List Nat) (e : Option Nat) : List Nat := it ++ e.toList
 
-/-- `StringLines::slice` (src/value/string.rs), hand-modelled: its two `for`
+/-- (Reference only since round 4: `Generated/C10Builtins.StringLines_slice` is transliterated from the
+    source and `Props/C10B.lines_slice_inner_no_panic` is proved over it; nothing uses this model.)
+    `StringLines::slice` (src/value/string.rs), hand-modelled: its two `for`
     loops advance one iterator over the offsets just after each newline
     (chained with the string's length when it does not end in a newline).
     `byte + 1` cannot overflow (bounded by the string's length). -/
